@@ -736,6 +736,110 @@ def early_exit_oracle(ctx, budget):
     return total
 
 
+# ------------------------------------------------------------------ two-loop hosts (brpls family)
+TWO_LOOP_TOLS = [(0.0, 1e-2), (1e-1, 1e-5), (1e-3, 1e-3), (0.0, float('inf')), (float('inf'), 0.0), (1e-2, 0.0), (-1.0, -1.0),
+                 (1e-5, 1e-1), (1e-2, 1e-3)]
+TWO_LOOP_ITERS = [(3, 4), (8, 5), (1, 2), (0, 0), (5, 1)]
+
+
+def two_loop_expected(evs, row0, max_iter, max_iter_2, tol, tol_2):
+    """The documented rule of the two-loop hosts replayed on the recorded inner events: the inner loop stops at
+    the first recorded difference below tol, after max_iter + 1 passes, or at the early exit (nothing recorded);
+    the outer loop stops at the first outer iteration whose recorded difference is below tol_2, after
+    max_iter_2 + 1 iterations, or when the inner loop left through the early exit.
+    Returns (rows of inner records, number of outer iterations, events consumed) or a string on mismatch."""
+    pos = 0
+    rows = []
+    for i in range(max_iter_2 + 1):
+        row = []
+        early = False
+        for _ in range(max_iter + 1):
+            if pos >= len(evs):
+                return f'the run made fewer inner passes ({len(evs)}) than the documented rule requires (outer iteration {i})'
+            e, v = evs[pos]
+            pos += 1
+            if e:
+                early = True
+                break
+            row.append(v)
+            if v < tol:
+                break
+        rows.append(row)
+        if i >= len(row0):
+            return f'no outer value recorded for outer iteration {i}'
+        if early or row0[i] < tol_2 or i == max_iter_2:
+            return rows, i + 1, pos
+    return rows, max_iter_2 + 1, pos
+
+
+def two_loop_case(ctx, name, two_d, key, modname, dname, data, kw):
+    from . import c01_nested as CN
+    case = {'kind': 'two-loop', 'method': name, 'two_d': two_d, 'data': dname, 'kwargs': kw}
+    extra = {'lam': 1e2, 'diff_order': 1} if dname.startswith('lin-') else {}
+    log, th, exc = CN.logged_call(name, two_d, modname, data, dict(kw, **extra))
+    if exc is not None:
+        return 'raised'
+    evs = CN.events_of(log, False)
+    if evs is None or th.ndim != 2 or th.shape[0] < 2:
+        ctx.fail(f'stop:{name}:{"2d" if two_d else "1d"}:two-loop-record', f'{name}({kw}): unexpected record / call order', case)
+        return 'bad'
+    passes = th.shape[0] - 1
+    row0 = [float(v) for v in th[0, :passes]]
+    exp = two_loop_expected(evs, row0, kw['max_iter'], kw['max_iter_2'], kw['tol'], kw['tol_2'])
+    bad = None
+    if isinstance(exp, str):
+        bad = exp
+    else:
+        rows, n_outer, used = exp
+        if n_outer != passes:
+            bad = (f'{passes} outer iterations were made (outer record {row0}), the documented rule stops after {n_outer} '
+                   f'(tol_2={kw["tol_2"]}, max_iter_2={kw["max_iter_2"]})')
+        elif used != len(evs):
+            bad = f'{len(evs)} inner passes were made, the documented rule makes {used}'
+        else:
+            for i, row in enumerate(rows):
+                got = [float(v) for v in th[i + 1]]
+                if got[:len(row)] != row or any(v != 0.0 for v in got[len(row):]):
+                    bad = f'row {i + 1} of tol_history is {got}, the inner loop of outer iteration {i} recorded {row}'
+                    break
+    if bad:
+        ctx.fail(f'stop:{name}:{"2d" if two_d else "1d"}:two-loop-record',
+                 f'{name}(max_iter={kw["max_iter"]}, max_iter_2={kw["max_iter_2"]}, tol={kw["tol"]}, tol_2={kw["tol_2"]}) on "{dname}" data: {bad}', case)
+        return 'bad'
+    return 'ok'
+
+
+def two_loop_data(dname, two_d):
+    from . import methods as M
+    rng = np.random.default_rng(2024)
+    prng = __import__('random').Random(2024)
+    if two_d:
+        return M.make_z2d(rng, 10, 12)
+    if dname == 'lin-spike-up':
+        (x,), d = early_datasets(False)
+        return (x, d['lin-spike-up'])
+    x = M.make_x(prng, 48)
+    return (x, M.make_y(rng, x))
+
+
+def two_loop_oracle(ctx, budget):
+    from . import c01_nested as CN
+    n = 0
+    for name, two_d, key, modname, gold in CN.METHODS:
+        if gold:
+            continue
+        for dname in (('noisy',) if two_d else ('noisy', 'lin-spike-up')):
+            data = two_loop_data(dname, two_d)
+            for (mi, mi2) in TWO_LOOP_ITERS:
+                for (tol, tol2) in TWO_LOOP_TOLS:
+                    kw = dict(max_iter=mi, max_iter_2=mi2, tol=tol, tol_2=tol2)
+                    res = two_loop_case(ctx, name, two_d, key, modname, dname, data, kw)
+                    ctx.case(('two-loop', name, two_d, dname, mi, mi2, tol, tol2), nontrivial=res == 'ok' and tol != tol2,
+                             kind=f'stop:two-loop:{"2d" if two_d else "1d"}' + ('' if res == 'ok' else ':' + res))
+                    n += 1
+    return n
+
+
 def run(ctx):
     ctx.rule = ('residual vectors of size 3..100, magnitudes 1e-100..1e100, kinds mixed/all-positive/all-negative/ties-at-zero/'
                 'one-negative/wide; bit-exact cases for asls, drpls, lsrpls, iarpls, quantile and the early-exit flags of all rules; '
@@ -750,14 +854,20 @@ def run(ctx):
     ]
     ctx.gate()
     ctx.translate(['GenLoops'])
-    ok = ctx.build_props(extra=['C09/Float.vo', 'C01/Trace.vo'])
+    ctx.translate(['GenNested'])      # two-loop hosts: bookkeeping + "the outer stop test compares with tol_2 / tol_3 only" (fail-closed)
+    ok = ctx.build_props(extra=['C09/Float.vo', 'C01/Trace.vo', 'C01/NestedTrace.vo'])
     bad = correspondence(ctx)
     c01.trace_validation(ctx)
+    from .c01_nested import nested_trace_validation      # shared with C01: the two-level skeleton driven by recorded events
+    nested_trace_validation(ctx)
     budget = 1 if (ok and not ctx.broken and ctx.tier == 'quick') else 6
     oracle(ctx, budget)
     oracle_defaults(ctx, budget)
     nh = host_oracle(ctx, budget)
     ne = early_exit_oracle(ctx, budget)
+    n2 = two_loop_oracle(ctx, budget)
+    ctx.note(f'{n2} runs of the two-loop hosts (brpls, pspline_brpls, 1-D and 2-D) on an enumerated (max_iter, max_iter_2, tol, tol_2) grid with tol != tol_2 '
+             'in both directions: both records vs the documented rule replayed on the recorded inner events')
     ctx.note(f'{ne} host runs that take (or stop just before / after) the documented early exit compared with the stop rule replayed from per-step baselines')
     ctx.note(f'oracle budget x{budget}; brpls value formula (erf) and its beta -> 1 guard only range/monotone checked; '
              f'{nh} returned (weights, baseline) pairs of 1-D/2-D hosts compared with the documented rule at default parameters; '
@@ -781,6 +891,14 @@ class _ReplayCtx:
 def replay(rep):
     case = rep.get('case') or {}
     print('replay case keys:', list(case))
+    if case.get('kind') == 'two-loop':
+        from . import c01_nested as CN
+        rc = _ReplayCtx(0)
+        for name, two_d, key, modname, gold in CN.METHODS:
+            if name == case['method'] and two_d == case['two_d']:
+                two_loop_case(rc, name, two_d, key, modname, case['data'], two_loop_data(case['data'], two_d), case['kwargs'])
+        print('replay two-loop host:', rc.fails[0][1] if rc.fails else 'both records follow the documented rule on this input')
+        return 1 if rc.fails else 0
     if case.get('kind') == 'early-exit':
         rc = _ReplayCtx(0)
         rc.note = lambda *a, **k: None
